@@ -30,6 +30,9 @@ import AutomataVerif.Proofs.NFAOpsUnary
 import AutomataVerif.Proofs.NFAOpsReverse
 import AutomataVerif.Proofs.NFAOpsBinary
 import AutomataVerif.Proofs.NFAOpsInter
+import AutomataVerif.Proofs.EpsOpsC
+import AutomataVerif.Proofs.NFAElimSpec
+import AutomataVerif.Proofs.NFAOpsRQ
 import AutomataVerif.Proofs.NFAOpsShuffle
 import AutomataVerif.Props.C01
 
@@ -232,6 +235,88 @@ theorem C08_intersection (A : AV.NFA σ₁ α) (B : AV.NFA σ₂ α) (hA : A.Val
 /-- The operator `A & B` is `intersection`. -/
 theorem C08_and (A : AV.NFA σ₁ α) (B : AV.NFA σ₂ α) (hA : A.Valid) (hB : B.Valid) :
     ∃ R, NFA.andOp A B = .ok R ∧ R.Valid ∧ Lang R = Lang A ⊓ Lang B := C08_intersection A B hA hB
+
+/-! ## ε-elimination (helper of the quotients) -/
+
+/-- The ε-free automaton described by the triple `_eliminate_lambda` returns. -/
+def elimTextbook (i : σ) (ta : Tbl σ α) (fa : List σ) : εNFA α σ where
+  step := fun q a => {p | p ∈ Tbl.tgt ta q a}
+  start := {i}
+  accept := {q | q ∈ fa}
+
+/-- `_eliminate_lambda` preserves the language (and yields an ε-free automaton on the
+reachable states). -/
+theorem elim_language (A : AV.NFA σ α) (hA : A.Valid) (ra : List σ) (ta : Tbl σ α) (fa : List σ)
+    (sa : NFAElim.ElimSpec A ra ta fa) : (elimTextbook A.init ta fa).accepts = Lang A := by
+  have hcl : ∀ q ∈ A.states, ∀ p, p ∈ A.closure q ↔ p ∈ (nfaTextbook A).εClosure {q} :=
+    fun q hq p => C01_nfa_closure A q p hq
+  refine accepts_elim (nfaTextbook A) (elimTextbook A.init ta fa) {q | q ∈ ra} A.init rfl rfl
+    sa.init_mem ?_ ?_ ?_ ?_ ?_
+  · intro q hq a p hp
+    exact sa.closed q hq a p hp
+  · intro q hq
+    ext p
+    simp only [elimTextbook, Set.mem_ofPred_eq, Set.mem_empty_iff_false, iff_false]
+    unfold Tbl.tgt
+    rw [sa.no_eps_key q hq]
+    simp
+  · intro q hq a r hr s hs
+    exact sa.low q hq a r ((hcl q (sa.sub q hq) r).mpr hr) s hs
+  · intro q hq a p hp
+    obtain ⟨r, hr, s, hs, hps⟩ := sa.up q hq a p hp
+    have hrs : r ∈ A.states := NFA.closure_sub_states hA.wf (sa.sub q hq) hr
+    exact ⟨r, (hcl q (sa.sub q hq) r).mp hr, s, hs,
+      (hcl s (NFA.targets_mem_states hA.wf hs) p).mp hps⟩
+  · intro q hq
+    show q ∈ fa ↔ _
+    rw [sa.fin q]
+    constructor
+    · rintro ⟨_, p, hp, hf⟩
+      exact ⟨p, (hcl q (sa.sub q hq) p).mp hp, hf⟩
+    · rintro ⟨p, hp, hf⟩
+      exact ⟨hq, p, (hcl q (sa.sub q hq) p).mpr hp, hf⟩
+
+/-! ## right_quotient -/
+
+/-- **C08 (right_quotient).**  `A.right_quotient(B)` never fails, returns a valid NFA, and
+its language is `L(A) / L(B) = {w | ∃ x ∈ L(B), w·x ∈ L(A)}`. -/
+theorem C08_right_quotient (A : AV.NFA σ₁ α) (B : AV.NFA σ₂ α) (hA : A.Valid) (hB : B.Valid) :
+    ∃ R, NFA.rightQuotient A B = .ok R ∧ R.Valid ∧ Lang R = rightQuotientLang (Lang A) (Lang B) := by
+  obtain ⟨ra, ta, fa, hca, sa⟩ := NFAElim.core_spec A hA
+  obtain ⟨rb, tb, fb, hcb, sb⟩ := NFAElim.core_spec B hB
+  obtain ⟨R, hR, hval, hinit, hAsome, hAnone, hBnone, hBsome, hfin⟩ :=
+    rightQuotient_spec A B hA hB ra ta fa rb tb fb hca hcb sa sb
+  refine ⟨R, hR, hval, ?_⟩
+  rw [← elim_language A hA ra ta fa sa, ← elim_language B hB rb tb fb sb]
+  refine accepts_right_quotient (nfaTextbook R) (elimTextbook A.init ta fa) (elimTextbook B.init tb fb)
+    {q | q ∈ ra} {q | q ∈ rb} A.init B.init (fun q hq a p hp => sa.closed q hq a p hp)
+    (fun q hq a p hp => sb.closed q hq a p hp) sa.init_mem sb.init_mem ?_ ?_ rfl rfl ?_ ?_ ?_ ?_ ?_ ?_
+  · intro q hq
+    ext p
+    simp only [elimTextbook, Set.mem_ofPred_eq, Set.mem_empty_iff_false, iff_false]
+    unfold Tbl.tgt
+    rw [sa.no_eps_key q hq]; simp
+  · intro q hq
+    ext p
+    simp only [elimTextbook, Set.mem_ofPred_eq, Set.mem_empty_iff_false, iff_false]
+    unfold Tbl.tgt
+    rw [sb.no_eps_key q hq]; simp
+  · simp [nfaTextbook, hinit]
+  · intro q hq a
+    ext t
+    exact hAsome q hq a t
+  · intro q hq
+    ext t
+    simp only [nfaTextbook, Set.mem_ofPred_eq, Set.mem_singleton_iff]
+    exact hAnone q hq t
+  · intro qa hqa qb hqb
+    ext t
+    exact hBnone qa hqa qb hqb t
+  · intro qa hqa qb hqb a
+    ext t
+    simp [nfaTextbook, hBsome qa hqa qb hqb a]
+  · intro s
+    exact hfin s
 
 /-! ## reverse -/
 
